@@ -501,8 +501,9 @@ def run(ck):
                      quick and size == 2))
     # -- 2. graph export for the replay --------------------------------------------------------
     if quick:
-        # the largest graph first, split in two so that its replay can start early
-        gjobs = [("g2a", names3, 2, 2, ALL_KINDS[2:], both), ("g2b", names3, 2, 2, ALL_KINDS[:2], both),
+        # the largest graph first, split in two so that its replay can start early; at size 2 the
+        # stamp-comparing FunctionLoader (same spec behaviour as "fs") is left to sizes 0, 1, -1 and thorough
+        gjobs = [("g2a", names3, 2, 2, ["fs"], both), ("g2b", names3, 2, 2, ["dict", "fnstr"], both),
                  ("g1", names3, 2, 1, ALL_KINDS, both), ("gu", names2, 2, -1, ALL_KINDS, both),
                  ("g0", names3, 2, 0, ALL_KINDS, both)]
     else:
